@@ -96,9 +96,10 @@ def run(ch: Checker) -> None:
         te_seen = any(pol is True and (_is_te_scan_text(a) or a in te_flags) for a, pol in fd.items())    # the scan for a Transfer-Encoding header, whatever its flag is called
         if fd.get('no_cl') is not True and not te_seen:
             n += 1
-            from .c15 import _cl_store_kind
+            from .c15 import cl_store_at, _cl_key_locals
             sym_b = Sym(p)
-            stores = [st for i, st in p.stmts() if isinstance(st, ast.Assign) and isinstance(st.targets[0], ast.Subscript) and _cl_store_kind(sym_b.value(st.targets[0].slice, i), bhr.module, ce) is not None]
+            cl_keys = _cl_key_locals(bhr, bhr.module, ce)
+            stores = [st for i, st in p.stmts() if cl_store_at(p, i, st, sym_b, bhr, ce, cl_keys) is not None]
             if not stores:
                 bad = ('a response without transfer-encoding header and without no_cl is built WITHOUT the builder computing Content-Length (extra condition: %s): a length supplied '
                        'by the caller survives even when the body was replaced (e.g. gzip-compressed by okResponse)' % [k for k, v in fd.items() if k not in ('no_cl', 'reason', 'body', 'conn_close') and k not in te_flags], p.describe(20))
